@@ -10,6 +10,7 @@ CONSTANTS
   MaxIx = 1
   MaxDepth = 3
   CellMask = FALSE
+  CopyClear = FALSE
   Valueless = TRUE
   Deviations = {"ValuelessChildBreaksRemoval"}
 INVARIANT LengthsAgree
